@@ -171,8 +171,13 @@ func runC02Scenario(sc c02Scenario) c02Result {
 					log(c02Ev{C: cid, T: "call", Op: "get", K: k})
 					var got int
 					var ok bool
-					lookups.Add(1)
-					if x == 3 {
+					if x == 4 && j%3 == 0 {
+						// a quiet read first: no lookup is counted (C20).  Its answer is not part of the history: C02 does not
+						// list GetEntryQuietly, and it reports a key absent while a replacement of its value is in progress
+						// (the retired node is still in the table) - see DESIGN.md 12.2
+						_, _ = c.GetEntryQuietly(k)
+					}
+					if lookups.Add(1); x == 3 {
 						got, ok = c.GetIfPresent(k)
 					} else {
 						var e Entry[int, int]
